@@ -335,7 +335,8 @@ def task_rr_bin(args):
 
 
 def _dispatch(t):
-    return {'auth': task_auth, 'send': task_send, 'rrbin': task_rr_bin}[t[0]](t[1])
+    from .. import deferred
+    return {'auth': task_auth, 'send': task_send, 'rrbin': task_rr_bin, 'deferred': deferred.task}[t[0]](t[1])
 
 
 def run(tier, seed):
@@ -349,6 +350,9 @@ def run(tier, seed):
         for i in range(0, len(pool), 40):
             tasks.append(('send', (ibgp, pool[i:i + 40])))
     tasks.append(('rrbin', ()))
+    # the worker thread of a send is held between its answer and its reactor.callFromThread: every window of events (vf/deferred.py)
+    from .. import deferred
+    tasks += [('deferred', a) for a in deferred.tasks(PROP, tier)]
     results = explore.pmap(_dispatch, tasks, chunk=1)
     explore.close_pool()
     total = 0
@@ -371,8 +375,9 @@ def run(tier, seed):
         'explanation': '%d URL rules (enumerated from app.url_map at run time) x %d methods x %d credential classes x %d session states, '
                        'each request issued through the Flask test client against a fresh replay of the state on the real objects; '
                        'plus %d send/update requests (eBGP and iBGP), route-refresh for 7 AFI/SAFI x 4 peer capability sets and bin_update '
-                       'with 1-2 messages, whose bytes on the simulated transport are decoded by the reference decoder'
-                       % (nrules, len(METHODS), len(CREDS), len(STATES), len(pool) * 2),
+                       'with 1-2 messages, whose bytes on the simulated transport are decoded by the reference decoder; plus every window of up to %d events '
+                       'between a send answered by its worker thread and the run of its reactor.callFromThread call (3 requests x 3 queue contents)'
+                       % (nrules, len(METHODS), len(CREDS), len(STATES), len(pool) * 2, deferred.WINDOW[tier]),
         'exhaustive': True, 'violation_keys': summary,
     }
     report.write_evidence(PROP, tier, seed, 'model_checking', cov, report.ASSUMPTIONS_E1, tm.wall(), n_new)
@@ -384,7 +389,10 @@ def replay(path):
     d = json.load(open(path))
     w = d['witness'] or {}
     key = d['key']
-    if key.startswith(('C16|i|', 'C16|ii|', 'C16|view')):
+    if key.startswith('C16|deferred|'):
+        from .. import deferred
+        runs = [(0, [(key if key.startswith(k + '|') else k, det) for k, det in report.fresh(deferred.replay, PROP, w)]) for _ in (0, 1)]
+    elif key.startswith(('C16|i|', 'C16|ii|', 'C16|view')):
         state = w.get('state') or key.split('|')[-1]
         runs = report.twice(task_auth, (state,))
     elif 'request' in w and 'attr' in (w.get('request') or {}):
